@@ -34,6 +34,66 @@ func loadBaseline(verifDir, rule string) (baseline, error) {
 
 type undecidedItem struct{ Pos, Why string }
 
+// baselineCtx gives ApplyBaseline access to the loaded program (function inventory, callers).
+var baselineCtx *Ctx
+
+// reviewedFunctions: names of all module functions of the reviewed tree (baselines/functions.json). A function that is not
+// in it was introduced after the review. When code is moved from a reviewed function into a new helper, the not-decided
+// sites move with it: they are charged to the unused part of the reviewed budget of the helper's callers instead of being
+// reported as new.
+func reviewedFunctions(verifDir string) map[string]bool {
+	out := map[string]bool{}
+	data, err := os.ReadFile(filepath.Join(verifDir, "baselines", "functions.json"))
+	if err != nil {
+		return nil
+	}
+	var names []string
+	if json.Unmarshal(data, &names) != nil {
+		return nil
+	}
+	for _, n := range names {
+		out[n] = true
+	}
+	return out
+}
+
+func writeReviewedFunctions(verifDir string, c *Ctx) {
+	var names []string
+	for _, fn := range c.AllFuncs {
+		names = append(names, c.Name(fn))
+	}
+	sort.Strings(names)
+	data, _ := json.MarshalIndent(names, "", " ")
+	os.MkdirAll(filepath.Join(verifDir, "baselines"), 0o755)
+	os.WriteFile(filepath.Join(verifDir, "baselines", "functions.json"), append(data, '\n'), 0o644)
+}
+
+// staticCallersOf: names of the functions that call fn (by name) statically; nil if some caller is dynamic/unknown.
+func staticCallersOf(c *Ctx, name string) []string {
+	fn := c.Funcs[name]
+	if fn == nil || c.CG == nil {
+		return nil
+	}
+	node := c.CG.Nodes[fn]
+	if node == nil || len(node.In) == 0 {
+		return nil
+	}
+	seen := map[string]bool{}
+	var out []string
+	for _, e := range node.In {
+		if e.Site == nil || e.Site.Common().StaticCallee() != fn {
+			return nil
+		}
+		n := c.Name(e.Site.Parent())
+		if !seen[n] {
+			seen[n] = true
+			out = append(out, n)
+		}
+	}
+	sort.Strings(out)
+	return out
+}
+
 // ApplyBaseline records per-function not-decided instances against the frozen baseline.
 func (r *Result) ApplyBaseline(verifDir, rule, what string, perFn map[string][]undecidedItem) {
 	b, err := loadBaseline(verifDir, rule)
@@ -59,7 +119,15 @@ func (r *Result) ApplyBaseline(verifDir, rule, what string, perFn map[string][]u
 		os.MkdirAll(filepath.Join(verifDir, "baselines"), 0o755)
 		data, _ := json.MarshalIndent(nb, "", " ")
 		os.WriteFile(filepath.Join(verifDir, "baselines", rule+".json"), append(data, '\n'), 0o644)
+		if baselineCtx != nil {
+			writeReviewedFunctions(verifDir, baselineCtx)
+		}
 		b = nb
+	}
+	reviewed := reviewedFunctions(verifDir)
+	spare := map[string]int{}
+	for fn, budget := range b {
+		spare[fn] = budget - len(perFn[fn])
 	}
 	var fns []string
 	for fn := range perFn {
@@ -68,6 +136,36 @@ func (r *Result) ApplyBaseline(verifDir, rule, what string, perFn map[string][]u
 	sort.Strings(fns)
 	for _, fn := range fns {
 		items := perFn[fn]
+		if len(items) > b[fn] && reviewed != nil && !reviewed[fn] && baselineCtx != nil {
+			// a function introduced after the review: charge its sites to the unused reviewed budget of its callers
+			need := len(items) - b[fn]
+			callers := staticCallersOf(baselineCtx, fn)
+			avail := 0
+			for _, cn := range callers {
+				if spare[cn] > 0 {
+					avail += spare[cn]
+				}
+			}
+			if len(callers) > 0 && avail >= need {
+				for _, cn := range callers {
+					if need == 0 {
+						break
+					}
+					take := spare[cn]
+					if take > need {
+						take = need
+					}
+					if take > 0 {
+						spare[cn] -= take
+						need -= take
+					}
+				}
+				for _, it := range items {
+					r.Undec(rule, fn+"#"+what, it.Pos, it.Why+" (site of a new helper, charged to the reviewed budget of "+strings.Join(callers, ", ")+")")
+				}
+				continue
+			}
+		}
 		if len(items) > b[fn] {
 			var sb strings.Builder
 			for _, it := range items {
